@@ -46,10 +46,19 @@ func (r *Rng) Intn(n int) int {
 	}
 	return int(r.U64() % uint64(n))
 }
-func (r *Rng) Bool() bool          { return r.U64()&1 == 1 }
-func (r *Rng) Chance(p int) bool   { return r.Intn(100) < p }
+func (r *Rng) Bool() bool              { return r.U64()&1 == 1 }
+func (r *Rng) Chance(p int) bool       { return r.Intn(100) < p }
 func (r *Rng) Pick(xs []string) string { return xs[r.Intn(len(xs))] }
-func (r *Rng) Fork() *Rng          { return NewRng(r.U64()) }
+func (r *Rng) Pick3(a, b, c int) int {
+	switch r.Intn(4) {
+	case 0, 1:
+		return a
+	case 2:
+		return b
+	}
+	return c
+}
+func (r *Rng) Fork() *Rng { return NewRng(r.U64()) }
 
 // ---------- Lean driver process ----------
 
@@ -155,29 +164,32 @@ type Op struct {
 	Impl func(args map[string]any) any
 	// Project optionally restricts the model's answer to the compared observables.
 	Project func(model any) any
+	// Repeat > 1: the implementation is run that many times on the same arguments (Go map
+	// iteration order is randomised); runs that differ among themselves are a violation.
+	Repeat int
 }
 
 type Case struct {
-	Op    string
-	Args  map[string]any
-	Feat  string // coarse class of the case (for the distinct/non-trivial count)
+	Op      string
+	Args    map[string]any
+	Feat    string // coarse class of the case (for the distinct/non-trivial count)
 	Trivial bool
 }
 
 type Violation struct {
-	Property string         `json:"property"`
-	Kind     string         `json:"kind"` // "input" | "obligation" | "self-disagreement"
-	Seed     uint64         `json:"seed"`
-	Index    int            `json:"index"`
-	Op       string         `json:"op"`
-	Args     map[string]any `json:"args,omitempty"`
-	ImplOut  any            `json:"impl_out,omitempty"`
-	ModelOut any            `json:"model_out,omitempty"`
-	Note     string         `json:"note,omitempty"`
-	Theorem  string         `json:"theorem,omitempty"`
-	Fact     string         `json:"fact,omitempty"`
-	ShrunkFrom int          `json:"shrunk_from_bytes,omitempty"`
-	Known    string         `json:"known_finding,omitempty"`
+	Property   string         `json:"property"`
+	Kind       string         `json:"kind"` // "input" | "obligation" | "self-disagreement"
+	Seed       uint64         `json:"seed"`
+	Index      int            `json:"index"`
+	Op         string         `json:"op"`
+	Args       map[string]any `json:"args,omitempty"`
+	ImplOut    any            `json:"impl_out,omitempty"`
+	ModelOut   any            `json:"model_out,omitempty"`
+	Note       string         `json:"note,omitempty"`
+	Theorem    string         `json:"theorem,omitempty"`
+	Fact       string         `json:"fact,omitempty"`
+	ShrunkFrom int            `json:"shrunk_from_bytes,omitempty"`
+	Known      string         `json:"known_finding,omitempty"`
 }
 
 type Stats struct {
@@ -203,15 +215,16 @@ func NewStats(prop string, seed uint64) *Stats {
 func (s *Stats) Count(k string) { s.Hist[k]++ }
 
 type Runner struct {
-	Prop   string
-	Seed   uint64
-	Drv    *Driver
-	Ops    map[string]*Op
-	St     *Stats
-	Known  []KnownFinding
-	Quirks []string
-	MaxViol int
+	Prop          string
+	Seed          uint64
+	Drv           *Driver
+	Ops           map[string]*Op
+	St            *Stats
+	Known         []KnownFinding
+	Quirks        []string
+	MaxViol       int
 	Shard, NShard int
+	RepeatFactor  int
 }
 
 func (r *Runner) modelOut(op *Op, m any) any {
@@ -232,6 +245,10 @@ func refreshNow(args map[string]any) {
 
 func (r *Runner) RunCases(cases []Case) {
 	reqs := make([]map[string]any, len(cases))
+	for i := range cases {
+		// the implementation side sees exactly what the model sees: plain JSON values
+		cases[i].Args = deepCopy(cases[i].Args).(map[string]any)
+	}
 	for i, c := range cases {
 		refreshNow(c.Args)
 		reqs[i] = map[string]any{"op": c.Op, "args": c.Args, "quirks": r.Quirks}
@@ -243,7 +260,24 @@ func (r *Runner) RunCases(cases []Case) {
 	}
 	for i, c := range cases {
 		op := r.Ops[c.Op]
+		if mm, ok := outs[i].(map[string]any); ok {
+			if stg, ok := mm["stage"].(string); ok {
+				r.St.Count("stage:" + stg)
+			}
+		}
 		impl := op.Impl(c.Args)
+		for k := 1; k < op.Repeat*r.RepeatFactor; k++ {
+			again := op.Impl(c.Args)
+			if canon(again) != canon(impl) {
+				r.St.Count("self-disagreement")
+				if len(r.St.Violations) < r.maxViol() {
+					r.St.Violations = append(r.St.Violations, Violation{Property: r.Prop, Kind: "self-disagreement", Seed: r.Seed, Index: r.St.Evaluations,
+						Op: c.Op, Args: c.Args, ImplOut: impl, ModelOut: again,
+						Note: "two runs of the implementation on identical inputs gave different results (impl_out vs model_out fields hold the two runs)"})
+				}
+				break
+			}
+		}
 		model := r.modelOut(op, outs[i])
 		ci, cm := canon(impl), canon(model)
 		idx := r.St.Evaluations
@@ -256,6 +290,14 @@ func (r *Runner) RunCases(cases []Case) {
 		}
 		if len(r.St.Samples) < 6 && (idx%97 == 0 || len(r.St.Samples) < 2) {
 			r.St.Samples = append(r.St.Samples, map[string]any{"op": c.Op, "args": c.Args, "impl": impl, "model": model})
+		}
+		if im, ok := impl.(map[string]any); ok {
+			if res, ok := im["res"].(string); ok {
+				r.St.Count(c.Op + ":" + res)
+			}
+			if ran, ok := im["ran"].([]any); ok && len(ran) > 0 {
+				r.St.Count(c.Op + ":inspections-ran")
+			}
 		}
 		if ci != cm {
 			r.report(c, idx, impl, model)
@@ -401,14 +443,14 @@ func (r *Runner) shrink(opn string, args map[string]any) map[string]any {
 // ---------- known findings ----------
 
 type KnownFinding struct {
-	ID       string `json:"id"`
-	Property string `json:"property"`
-	Status   string `json:"status"` // "known" | "fixed"
-	Commit   string `json:"commit,omitempty"`
-	What     string `json:"what"`
-	Op       string `json:"op,omitempty"`
+	ID       string         `json:"id"`
+	Property string         `json:"property"`
+	Status   string         `json:"status"` // "known" | "fixed"
+	Commit   string         `json:"commit,omitempty"`
+	What     string         `json:"what"`
+	Op       string         `json:"op,omitempty"`
 	Witness  map[string]any `json:"witness,omitempty"`
-	Quirk    string `json:"quirk,omitempty"`
+	Quirk    string         `json:"quirk,omitempty"`
 }
 
 func LoadKnown(path string) []KnownFinding {
@@ -453,7 +495,7 @@ func (r *Runner) Finish(tier, outPath, replayDir string) int {
 	code := 0
 	os.MkdirAll(replayDir, 0o755)
 	for i, v := range st.Violations {
-		p := filepath.Join(replayDir, fmt.Sprintf("%s-%d-%d.json", st.Property, st.Seed, i))
+		p := filepath.Join(replayDir, fmt.Sprintf("%s-%d-s%d-%d.json", st.Property, st.Seed, r.Shard, i))
 		b, _ := json.MarshalIndent(v, "", "  ")
 		os.WriteFile(p, b, 0o644)
 		suffix := ""
@@ -577,8 +619,19 @@ func doReplay(path, driver string) int {
 	}
 	defer drv.Close()
 	r := &Runner{Prop: v.Property, Drv: drv, Ops: allOps, St: NewStats(v.Property, v.Seed)}
+	if v.Kind == "self-disagreement" {
+		first := canon(op.Impl(v.Args))
+		for k := 0; k < 40; k++ {
+			if again := canon(op.Impl(v.Args)); again != first {
+				fmt.Fprintf(realOut, "replay %s op=%s: two runs on identical inputs differ\n run A: %s\n run B: %s\n", v.Property, v.Op, first, again)
+				fmt.Fprintf(realOut, "VIOLATION property=%s replay=%s\n", v.Property, path)
+				return 1
+			}
+		}
+		fmt.Fprintln(realOut, "replay: 41 runs on identical inputs agree now")
+		return 0
+	}
 	d, impl, model := r.disagrees(v.Op, v.Args)
-	_ = op
 	fmt.Fprintf(realOut, "replay %s op=%s\n impl : %s\n model: %s\n", v.Property, v.Op, canon(impl), canon(model))
 	if d {
 		fmt.Fprintf(realOut, "VIOLATION property=%s replay=%s\n", v.Property, path)
